@@ -195,8 +195,7 @@ class World:
             return "ok"
         if kind == "view":
             try:
-                mem.cache_repr()
-                self.sim.get_data_cache_entries()
+                self.sim.get_data_cache_entries()  # exactly one call: the search itself decides how often it is repeated
             except Exception as e:  # noqa
                 if checks is not None:
                     checks.append(("unexpected-error", f"cache_repr() raised {type(e).__name__}: {e}"))
